@@ -418,10 +418,11 @@ theorem byte_eq_lit (b : UInt8) (k : Nat) (hk : k < 256) : ((b.toNat : Int) = (k
     builtin "bytes.IndexByte" [.bytes s, .int c] = some (.int (indexByte s (UInt8.ofNat c.toNat))) := rfl
 @[simp] theorem builtin_lastIndexByte (s : Bytes) (c : Int) :
     builtin "strings.LastIndexByte" [.bytes s, .int c] = some (.int (lastIndexByte s (UInt8.ofNat c.toNat))) := rfl
+@[simp] theorem builtin_tuple (args : List Val) : builtin "tuple" args = some (.list args) := rfl
 /-- a name that is not a builtin (the hypothesis is closed by `by decide`) -/
 theorem builtin_none (f : String) (args : List Val)
     (h : ¬ (f = "min" ∨ f = "max" ∨ f = "bytes.IndexByte" ∨ f = "strings.IndexByte" ∨ f = "strings.LastIndexByte" ∨
-      f = "append" ∨ f = "append...")) : builtin f args = none := by
+      f = "append" ∨ f = "append..." ∨ f = "tuple")) : builtin f args = none := by
   simp only [not_or] at h
   simp [builtin, h]
 
@@ -433,16 +434,17 @@ theorem builtin_none (f : String) (args : List Val)
 /-! ## `for range` is a fold -/
 
 /-- if every iteration of the body ends normally in the state the step function predicts, the range loop is a
-    left fold.  `abs` maps the abstract loop state (and the index) to the concrete state *before* the loop
-    variables are bound. -/
-theorem rangeRun_fold {α : Type} (body : State → Out) (k v : LV) (abs : α → State) (step : α → Nat → Val → α)
-    (h : ∀ (a : α) (i : Nat) (x : Val), body (((abs a).assign1 k (.int i)).assign1 v x) = .normal (abs (step a i x))) :
-    ∀ (xs : List Val) (i : Nat) (a : α),
-      rangeRun body k v xs i (abs a) = .normal (abs ((xs.zipIdx i).foldl (fun a p => step a p.2 p.1) a))
+    left fold.  The slice is `ys.map enc` (so the lemma can speak about well-shaped elements only); `abs` maps the
+    abstract loop state to the concrete state *before* the loop variables are bound. -/
+theorem rangeRun_fold {α β : Type} (body : State → Out) (k v : LV) (abs : α → State) (enc : β → Val)
+    (step : α → Nat → β → α)
+    (h : ∀ (a : α) (i : Nat) (y : β), body (((abs a).assign1 k (.int i)).assign1 v (enc y)) = .normal (abs (step a i y))) :
+    ∀ (ys : List β) (i : Nat) (a : α),
+      rangeRun body k v (ys.map enc) i (abs a) = .normal (abs ((ys.zipIdx i).foldl (fun a p => step a p.2 p.1) a))
   | [], _, _ => rfl
-  | x :: xs, i, a => by
-    simp only [rangeRun, h, List.zipIdx_cons, List.foldl_cons]
-    exact rangeRun_fold body k v abs step h xs (i + 1) (step a i x)
+  | y :: ys, i, a => by
+    simp only [List.map_cons, rangeRun, h, List.zipIdx_cons, List.foldl_cons]
+    exact rangeRun_fold body k v abs enc step h ys (i + 1) (step a i y)
 
 /-! ## counted / conditional loops under an invariant -/
 
